@@ -991,6 +991,45 @@ func childMain(path string) {
 			}
 			doSearch(fmt.Sprintf("%d", q), qf, qt, order)
 		}
+		doFetch := func(label, class string, ids []seq.ID, present []bool, hints bool) {
+			req := &pb.FetchRequest{}
+			var idsS, relS []string
+			if hints { // the proxy's second phase: every ID carries the name of the fraction that reported it
+				class += ",hints"
+			}
+			for _, id := range ids {
+				if hints {
+					req.IdsWithHints = append(req.IdsWithHints, &pb.IdWithHint{Id: id.String(), Hint: owner[realDoc{uint64(id.MID), uint64(id.RID)}]})
+				} else {
+					req.Ids = append(req.Ids, id.String())
+				}
+				idsS = append(idsS, fmt.Sprintf("%d.%d", uint64(id.MID), uint64(id.RID)))
+				relS = append(relS, fmt.Sprintf("%s.%d", rel(uint64(id.MID)), uint64(id.RID)))
+			}
+			fs := &fakeStream{ctx: ctx}
+			status := "ok"
+			var missing []string
+			if err := st.g.Fetch(req, fs); err != nil {
+				status = "error"
+			} else if len(fs.blocks) != len(ids) {
+				status = "count"
+			} else {
+				for i, b := range fs.blocks {
+					blk := disk.DocBlock(b)
+					if present[i] && !bytes.Equal(blk.Payload(), docBody(uint64(ids[i].MID), uint64(ids[i].RID))) {
+						missing = append(missing, fmt.Sprintf("#%d=%s", i, idsS[i]))
+					}
+				}
+			}
+			nmiss := len(missing)
+			if len(idsS) > 8 {
+				idsS, relS = append(idsS[:6], fmt.Sprintf("..(%d ids)", len(ids))), append(relS[:6], fmt.Sprintf("..(%d ids)", len(ids)))
+			}
+			if len(missing) > 5 {
+				missing = missing[:5]
+			}
+			fmt.Printf("F\t%s\t%s\t%s\t%s\t%s\tmissing=%s\t%s missing %d\n", stage, label, class, strings.Join(idsS, ","), status, vh.JoinStrs(missing, ","), strings.Join(relS, ","), nmiss)
+		}
 		// fetches: a few present documents, optionally with unknown IDs
 		for q := 0; q < sc.Fetches && len(all) > 0; q++ {
 			nreq := r.Range(1, 4)
@@ -1015,38 +1054,36 @@ func childMain(path string) {
 				present = append(present, false)
 				class = "with-unknown-mid<2^63"
 			}
-			req := &pb.FetchRequest{}
-			var idsS, relS []string
-			hints := q%4 == 3 // the proxy's second phase: every ID carries the name of the fraction that reported it
-			if hints {
-				class += ",hints"
+			doFetch(fmt.Sprintf("%d", q), class, ids, present, q%4 == 3)
+		}
+		// directed multi-batch fetches: docsStream cuts a request into batches (1000 ids first) and groups every batch
+		// against the SAME fraction list; batch 1 lies entirely inside the dense fraction, the later batches hold
+		// the documents of all other fractions (pruned for batch 1) and more of the dense one
+		for k, f := range fracs {
+			if f.dense < 2500 {
+				continue
 			}
-			for _, id := range ids {
-				if hints {
-					req.IdsWithHints = append(req.IdsWithHints, &pb.IdWithHint{Id: id.String(), Hint: owner[realDoc{uint64(id.MID), uint64(id.RID)}]})
-				} else {
-					req.Ids = append(req.Ids, id.String())
-				}
-				idsS = append(idsS, fmt.Sprintf("%d.%d", uint64(id.MID), uint64(id.RID)))
-				relS = append(relS, fmt.Sprintf("%s.%d", rel(uint64(id.MID)), uint64(id.RID)))
-			}
-			fs := &fakeStream{ctx: ctx}
-			status := "ok"
-			var missing []string
-			if err := st.g.Fetch(req, fs); err != nil {
-				status = "error"
-			} else if len(fs.blocks) != len(ids) {
-				status = "count"
-			} else {
-				for i, b := range fs.blocks {
-					blk := disk.DocBlock(b)
-					if present[i] && !bytes.Equal(blk.Payload(), docBody(uint64(ids[i].MID), uint64(ids[i].RID))) {
-						missing = append(missing, idsS[i])
-					}
+			var dense, others []realDoc
+			for _, d := range all {
+				if owner[d] == f.name && d.mid >= f.base && d.mid < f.base+uint64(f.dense) {
+					dense = append(dense, d)
+				} else if owner[d] != f.name {
+					others = append(others, d)
 				}
 			}
-			nmiss := len(missing)
-			fmt.Printf("F\t%s\t%d\t%s\t%s\t%s\tmissing=%s\t%s missing %d\n", stage, q, class, strings.Join(idsS, ","), status, vh.JoinStrs(missing, ","), strings.Join(relS, ","), nmiss)
+			for v, order := range [][]realDoc{
+				append(append(append([]realDoc{}, dense[200:1300]...), others...), dense[5000:5200]...),
+				append(append(append([]realDoc{}, others...), dense[f.dense-1050:]...), dense[:300]...),
+			} {
+				var ids []seq.ID
+				var present []bool
+				for _, d := range order {
+					ids = append(ids, seq.ID{MID: seq.MID(d.mid), RID: seq.RID(d.rid)})
+					present = append(present, true)
+				}
+				doFetch(fmt.Sprintf("m%d.%d", k, v), "multi-batch", ids, present, false)
+				doFetch(fmt.Sprintf("m%d.%d.h", k, v), "multi-batch", ids, present, true)
+			}
 		}
 	}
 
@@ -1171,6 +1208,7 @@ func denseScenario(seed int64, thorough bool) scenario {
 		n = 2*consts.LIDBlockCap + 3000
 	}
 	return scenario{Name: "dense-multi-block", Seed: seed, Queries: 10, Fetches: 4, Fracs: []fracSpec{
+		{Sealed: true, Bulks: [][]docSpec{{{Off: -9_000_000}, {Off: -8_999_000}, {Off: -8_000_000}}, {{Off: -7_000_000}}}},
 		{Sealed: true, Dense: n, DenseSpread: 1_500_000, Bulks: [][]docSpec{{{Off: -3_000_000}}, {{Off: 5}}}},
 		{Sealed: false, Bulks: [][]docSpec{{{Off: -100}, {Off: -1}}}},
 	}}
@@ -1252,6 +1290,8 @@ func systemOracle(o vh.Opts, rep *vh.Report, scs []scenario) {
 					class := "present-document-not-fetched"
 					if strings.HasPrefix(f[3], "with-unknown-mid>=2^63") {
 						class = "range-crosses-int64-boundary"
+					} else if strings.HasPrefix(f[3], "multi-batch") {
+						class = "present-document-not-fetched-in-multi-batch-request"
 					}
 					site := "fracmanager/fetcher.go:groupIDsByFraction"
 					key := site + class
